@@ -38,11 +38,11 @@ SEGMENT_TABLE = {
         SEG + '::load_from_disk': ['1'],
     },
     'last_index_position': {
-        SEG + '::load_from_disk': ['Atomic::load(self.log_size_bytes, Ordering::Acquire{})'],   # end of the log, not start of the last batch
+        SEG + '::load_from_disk': ['phi{Atomic::load(self.log_size_bytes, Ordering::Acquire{}) | Option::filter(phi{0 | Option::None{} | SegmentLogReader::batch_end_position(self.log_reader, [T]::last(self.indexes).position)}, closure)}'],   # end of the log = file size, or the end of the last indexed batch when the file is longer (torn tail discarded, F22)
         SEG + '::persist_messages': ['(::get_size_bytes(BatchAccumulator::materialize_batch_and_update_state(Option::take(self.unsaved_messages))) + self.last_index_position)'],
     },
     'size_bytes': {
-        SEG + '::load_from_disk': ['Atomic::load(self.log_size_bytes, Ordering::Acquire{})'],
+        SEG + '::load_from_disk': ['phi{Atomic::load(self.log_size_bytes, Ordering::Acquire{}) | Option::filter(phi{0 | Option::None{} | SegmentLogReader::batch_end_position(self.log_reader, [T]::last(self.indexes).position)}, closure)}'],
     },
     'unsaved_messages': {
         LOAD: ['BatchAccumulator::new($Segment.current_offset, partition.config.partition.messages_required_to_save)'],
